@@ -5,7 +5,7 @@ usage: evalmutant.py <prop> <mutant dir> [--keep <seeded id>]
 
 1. scratch worktree of /repo HEAD under /tmp: the patch applies, the library builds, the suite passes,
    the demonstration fails with the patch and passes without it;
-2. the patch is applied to /repo itself, the property's quick check is run, the patch is undone.
+2. the property's quick check is run against the patched scratch worktree (same sources as /repo plus the patch).
 With --keep the confirmed mutant is copied to /verif/seeded/<id>/ with a meta.json.
 """
 import json, os, re, shutil, subprocess, sys, tempfile
@@ -73,17 +73,13 @@ def main():
         rc1, out1 = demo_run()
         res["demo_fails_with"] = rc1 != 0
         res["demo_output_with"] = "\n".join([l for l in out1.splitlines() if l.strip()][:6])[:600]
-    finally:
-        run(["git", "-C", "/repo", "worktree", "remove", "--force", wt])
-    # the check against /repo itself
-    rc, out = run(["git", "-C", "/repo", "apply", patch])
-    try:
-        rc, out = run(["/verif/bin/bchverif", "-prop", prop, "-tier", "quick", "-noevidence", "-repo", "/repo", "-verif", "/verif"], cwd="/verif")
+        # the check, against the patched scratch worktree (same sources as /repo + patch; /repo itself is left alone so
+        # that several mutants can be evaluated at once)
+        rc, out = run(["/verif/bin/bchverif", "-prop", prop, "-tier", "quick", "-noevidence", "-repo", wt, "-verif", "/verif"], cwd="/verif", timeout=1800)
         res["check_exit"] = rc
         res["check_violations"] = [l for l in out.splitlines() if "violated in" in l][:6]
     finally:
-        run(["git", "-C", "/repo", "checkout", "--", "."])
-        run(["git", "-C", "/repo", "clean", "-fdq"])
+        run(["git", "-C", "/repo", "worktree", "remove", "--force", wt])
     res["confirmed"] = bool(res.get("applies") and res.get("demo_passes_without") and res.get("suite_passes_with") and res.get("demo_fails_with"))
     res["caught"] = res.get("check_exit") == 1
     if keep and res["confirmed"]:
